@@ -229,11 +229,14 @@ func (c *Ctx) Finish() {
 	}
 	c.Logf("done: states=%d transitions=%d traces=%d evaluations=%d nontrivial=%d violations=%d internal=%d",
 		c.States, c.Transitions, c.Traces, c.Evals, c.Nontrivial, nviol, ninternal)
-	if ninternal > 0 {
-		os.Exit(2)
-	}
+	// A violation is always a disagreement of the REAL code with the specification,
+	// observed and written to a replay file; it stands even if another part of the
+	// run could not decide (internal error). Undecided with nothing observed = 2.
 	if nviol > 0 {
 		os.Exit(1)
+	}
+	if ninternal > 0 {
+		os.Exit(2)
 	}
 	os.Exit(0)
 }
